@@ -1,4 +1,4 @@
-CONSTANTS Carriers = {"xds"} Vals = {"a", "b", "u"} WssWords = {} MaxRecv = 8 UnknownOnce = TRUE XdsGuard = TRUE
+CONSTANTS Carriers = {"xds"} Vals = {"a", "b", "u"} WssWords = {} MaxRecv = 8 UnknownOnce = TRUE XdsGuard = TRUE Calls = {"a", "b"}
 SPECIFICATION GSpec
 VIEW gview
 CONSTRAINT Dump
